@@ -29,6 +29,13 @@ THEOREMS = [
     "C02_no_fusion",
     "C02_cell_write_meaning",
     "C02_read_meaning",
+    "C02_update_ready",
+    "C02_update_meaning",
+    "C02_write_meaning_wf",
+    "C02_no_fusion_wf",
+    "C02_ready_wf",
+    "C02_history_wf",
+    "C02_cell_update",
     "C02_ops_surface",
     "C02_ops_cell",
     "C02_ops_and",
@@ -147,6 +154,9 @@ def compare(case, impl, den, model):
             return "U-geometry-parse (GT.format vs GeometryTree.format)", {"impl": impl["tree_text"], "model": model["parse_text"]}
         if impl["tree_text"] != geom.abstract(case["text"], False):
             return "U-geometry-parse (tree text vs input text: CellParser tree not lossless)", {"impl": impl["tree_text"], "input": case["text"]}
+    if model.get("wf") is not True:
+        return "HS.WF (hypothesis of C02_write_meaning_wf / C02_history_wf / C02_cell_update) does not hold of a tree the parser or the operators built", {
+            "input": case.get("text"), "operands": [op.get("xt") for op in case["ops"] if "xt" in op]}
     if model["init"] != impl["init_str"]:
         return "U-geometry-parse (parseInputNode vs HalfSpace.parse_input_node)" if case["origin"] == "parsed" else "U-geometry-ops", {
             "impl": impl["init_str"], "model": model["init"]}
